@@ -8,6 +8,7 @@ import "testing"
 func TestRegPurgeKeepsRetainedVersions(t *testing.T) {
 	for _, keep := range []int{-1, 0, 2} {
 		s := newSut(t, mFlags{})
+		t.Cleanup(s.close)
 		s.prefix = "reg_"
 		for _, v := range []string{"2.1.0", "2.0.0", "1.1.0-beta", "1.0.0", "0.9.0"} {
 			s.addResource("b/pkg.zip", v, nil, true, false, false)
@@ -23,7 +24,6 @@ func TestRegPurgeKeepsRetainedVersions(t *testing.T) {
 		s.selectVersions()
 		s.getFile("b/pkg.zip")
 		s.checkListing("GetFile after Purge")
-		s.close()
 	}
 	// unavailable versions only: nothing on disk to look at, the listing must still keep the needed versions
 	s := newSut(t, mFlags{})
